@@ -2,6 +2,7 @@
 C03 — resource sets behave as exact, canonical sets of addresses / AS numbers.
 Only property theorems and non-vacuity examples; lemmas are in Rpki/Proofs/Chain*.lean.
 -/
+import Rpki.Proofs.ChainPrefix
 import Rpki.Proofs.ChainOps
 namespace Rpki.C03
 open Rpki.Chain Rpki.Consts
@@ -82,10 +83,27 @@ otherwise (the full AS space has 2^32 items). -/
 theorem asnCount_spec (c : List Blk) : asnCount c = some (min 4294967295 (total c)) := asnCount_spec' c
 
 /-- When `into_prefix` reports a prefix the range is exactly that aligned power-of-two block.
-(partial: that every aligned block *is* reported as a prefix is decided by the oracle on the
-implementation, not proved — it needs bit-level facts about xor/leading_zeros.) -/
-theorem intoPrefix_sound_partial (W lo hi len : Nat) (h : intoPrefix W lo hi = some len) :
-    lo % 2 ^ (W - len) = 0 ∧ hi = lo + 2 ^ (W - len) - 1 := intoPrefix_sound W lo hi len h
+-/
+theorem intoPrefix_sound (W lo hi len : Nat) (h : intoPrefix W lo hi = some len) :
+    lo % 2 ^ (W - len) = 0 ∧ hi = lo + 2 ^ (W - len) - 1 := Chain.intoPrefix_sound W lo hi len h
+
+/-- … and conversely every aligned power-of-two block is reported as a prefix of its length
+(`into_prefix` is complete, so canonical chains store prefixes as prefixes). -/
+theorem intoPrefix_complete (W k lo : Nat) (hk : k ≤ W) (hal : lo % 2 ^ k = 0) (hhi : lo + 2 ^ k - 1 < 2 ^ W) :
+    intoPrefix W lo (lo + 2 ^ k - 1) = some (W - k) := Chain.intoPrefix_complete W k lo hk hal hhi
+
+/-- **Range-to-prefix decomposition.** `to_v4_prefixes` / `to_v6_prefixes` return aligned prefixes
+that tile the range exactly, in ascending order (with the fuel the caller uses, `2W + 2` ≥ the
+number of steps): an address is in one of the prefixes iff it is in the range. -/
+theorem toPrefixes_tiles (W start stop : Nat) (h1 : start ≤ stop) (h2 : stop < 2 ^ W) :
+    Tiles W (toPrefixes W (2 * W + 2) start stop) start stop ∧
+    ∀ x, (∃ p ∈ toPrefixes W (2 * W + 2) start stop, pfxLo W p ≤ x ∧ x ≤ pfxHi W p) ↔ (start ≤ x ∧ x ≤ stop) := by
+  have t := toPrefixes_tiles_caller W start stop h1 h2
+  refine ⟨t, ?_⟩
+  have hne : toPrefixes W (2 * W + 2) start stop ≠ [] := by
+    intro e; rw [e] at t; simp only [Tiles] at t; omega
+  exact tiles_mem W _ start stop hne t
+
 
 /-! ## Non-vacuity -/
 
